@@ -716,7 +716,7 @@ func (eng *Engine) verify(c *Contract, prop string) (rep *FuncReport, err error)
 		switch cl.Kind {
 		case "let":
 			ex.lets[cl.LetName] = ex.evalClauseVal(st, cl, ex.entry, bodyPos, nil)
-		case "requires":
+		case "requires", "domain":
 			st.assume(ex.evalClause(st, cl, ex.entry, bodyPos, nil, nil))
 		}
 	}
